@@ -725,7 +725,7 @@ pub fn encode(resolve: &Resolve, world: WorldId, module: Vec<u8>) -> Result<Enco
 pub fn judge(resolve: &Resolve, world: WorldId, d: &Decls) -> Verdict {
     let exp = expected(resolve, world);
     let mut v = Verdict::default();
-    let mut push = |v: &mut Verdict, kind: &str, pattern: String, what: String, hard: bool| {
+    let push = |v: &mut Verdict, kind: &str, pattern: String, what: String, hard: bool| {
         v.violations.push(Violation { kind: kind.into(), pattern, what, hard, import: None });
     };
 
